@@ -136,6 +136,7 @@ package state
 //@   ensures [own_deposits] err == nil && old(s.last) != as(ptr_accountSnapshotImpl, isnapshot) ==> (s.last.deposits == nil ==> s.deposits == nil) && (s.last.deposits != nil ==> s.deposits != nil && fresh(s.deposits) && len(s.deposits) == len(s.last.deposits))
 //@   ensures [own_objcache] err == nil && old(s.last) != as(ptr_accountSnapshotImpl, isnapshot) ==> s.objCache == nil || fresh(s.objCache)
 //@   ensures [own_contracts] err == nil && old(s.last) != as(ptr_accountSnapshotImpl, isnapshot) ==> (s.curContract == nil || fresh(s.curContract)) && (s.nextContract == nil || fresh(s.nextContract))
+//@   ensures [storeless] err == nil && old(s.last) != as(ptr_accountSnapshotImpl, isnapshot) && as(ptr_accountSnapshotImpl, isnapshot).store == nil ==> s.store == nil && s.accountData.store == nil
 //@   ensures [snapshot_untouched] as(ptr_accountSnapshotImpl, isnapshot).deposits == old(as(ptr_accountSnapshotImpl, isnapshot).deposits) && as(ptr_accountSnapshotImpl, isnapshot).objCache == old(as(ptr_accountSnapshotImpl, isnapshot).objCache) && as(ptr_accountSnapshotImpl, isnapshot).state == old(as(ptr_accountSnapshotImpl, isnapshot).state)
 
 // a snapshot taken from a changed account is a new object holding the current scalar contents and
@@ -219,13 +220,14 @@ package state
 //@   modifies *
 //@   opt no-callee-pre
 //@   opt inline-none
-//@   opt protect fields(as(ptr_worldSnapshotImpl, isnapshot))
-//@   requires ws != nil && typeof(isnapshot) == typeid(ptr_worldSnapshotImpl) && as(ptr_worldSnapshotImpl, isnapshot) != nil
+//@   opt protect fields(as(ptr_worldSnapshotImpl, isnapshot)), ws.lastAccounts, ws.mutableAccounts
+//@   requires ws != nil && ws.lastAccounts != nil && ws.mutableAccounts != nil && typeof(isnapshot) == typeid(ptr_worldSnapshotImpl) && as(ptr_worldSnapshotImpl, isnapshot) != nil
 //@   callpre MutableForObject.Reset: s == as(ptr_worldSnapshotImpl, isnapshot).accounts
 //@   callpre getAccountSnapshotWithKey: ghost(mfo_reset_to) == as(ptr_worldSnapshotImpl, isnapshot).accounts && key == as(ptr_accountStateImpl, caller_as).key
 //@   callpre AccountState.Reset: snapshot == value && value != nil && a == caller_as
 //@   callpre AccountState.Clear: value == nil && a == caller_as
 //@   loop 0: invariant ghost(mfo_reset_to) == as(ptr_worldSnapshotImpl, isnapshot).accounts
+//@   loop 0: step (value != nil ==> hasmap(ws.lastAccounts)[ids] && valmap(ws.lastAccounts)[ids] == value) && (value == nil ==> !hasmap(ws.lastAccounts)[ids])
 
 // taking a world snapshot flushes the account cache first, so that the snapshot of the account trie
 // holds every account as it is now
@@ -238,3 +240,14 @@ package state
 //@   opt inline-none
 //@   requires ws != nil
 //@   callpre MutableForObject.GetSnapshot: ghost(flushed_count) == old(ghost(flushed_count)) + 1
+
+// clearing the caches writes pending account changes into the account trie first (nothing that was
+// changed since the last snapshot is dropped with the cache)
+//@ func (ws *worldStateImpl) ClearCache()
+//@   arith int
+//@   nosafety
+//@   modifies *
+//@   opt no-callee-pre
+//@   opt inline-none
+//@   requires ws != nil
+//@   callpre MutableForObject.ClearCache: ghost(flushed_count) == old(ghost(flushed_count)) + 1
